@@ -29,6 +29,11 @@ MANIFEST = dict(
 OPS = {"__add": "+", "__sub": "-", "__mul": "*", "__div": "/"}
 
 
+LUA_PURE_GLOBALS = {"type", "pairs", "ipairs", "rawequal", "rawget", "rawlen", "getmetatable", "math", "next", "select", "tostring",
+                    "string", "__TUPLE", "__LIST", "__TUPLE_META", "__LIST_META", "__BLOB_META", "__VARIANT_META", "__SET_META",
+                    "__DICT_META"}
+
+
 def meta_functions(ast):
     """{(META, name): function node} for assignments META.name = function .. end"""
     out = {}
@@ -176,6 +181,37 @@ def equality(rep, mf):
                "preamble.lua:%s" % f["line"])
     else:
         rep.ob("EQ", "__VARIANT_META|defined", False, "__VARIANT_META.__eq is not defined")
+    # a comparison is a function of its two operands: it keeps no record of earlier comparisons (state written on one call
+    # and read on the next makes `a == b` depend on what was compared before - and an exit that skips the clean-up leaves it
+    # behind), and its only verdicts are the recognised ones
+    for (meta, name), f in sorted(mf.items()):
+        if name not in ("__eq", "__lt", "__le"):
+            continue
+        locs = set(f["params"])
+        for n_ in luaparse.walk(f["body"]):
+            if n_.get("k") == "Local":
+                locs.update(n_["names"])
+            elif n_.get("k") in ("ForNum",):
+                locs.add(n_["var"])
+            elif n_.get("k") == "ForIn":
+                locs.update(n_["names"])
+        writes = []
+        for n_ in luaparse.walk(f["body"]):
+            if n_.get("k") == "Assign":
+                for t in n_["targets"]:
+                    base = t
+                    while base.get("k") == "Index":
+                        base = base["obj"]
+                    if not (t.get("k") == "Name" and t.get("name") in locs):
+                        writes.append(luaparse.show(t))
+        reads = sorted({luaparse.show(n_) for n_ in luaparse.walk(f["body"]) if n_.get("k") == "Name"
+                        and n_.get("name") not in locs and n_.get("name") not in LUA_PURE_GLOBALS})
+        ok = not writes and not reads
+        rep.ob("EQ" if name == "__eq" else "ORDER", "%s|%s|function-of-its-operands" % (meta, name), ok,
+               "%s.%s reads its two operands only and writes nothing" % (meta, name) if ok else
+               "%s.%s writes %s / reads the globals %s: the verdict depends on comparisons made before (an early `return false` "
+               "that leaves a record behind makes a later comparison of the same list answer true without looking at the elements)"
+               % (meta, name, writes or "nothing", reads or "none"), "preamble.lua:%s" % f["line"])
     # no __ne-like override: Lua derives ~= from __eq; nothing in the preamble may shadow that
     bad = [k for k in mf if k[1] in ("__ne", "__neq")]
     rep.ob("EQ", "complement", not bad, "`!=` is Lua's negation of __eq (no separate metamethod)")
